@@ -26,6 +26,12 @@ type Srv struct {
 // Start runs Serve on a fresh listener with the given provider.
 func Start(n *simnet.Net, tp *tap.Tap, lg *tap.Logger, sp tq.SecretProvider, opts ...tq.Option) *Srv {
 	ctx, cancel := context.WithCancel(context.Background())
+	return StartCtx(ctx, cancel, n, tp, lg, sp, opts...)
+}
+
+// StartCtx is Start with a context given by the caller (a server wired like cmds/server/main.go
+// shares one context between the loader and Serve).
+func StartCtx(ctx context.Context, cancel context.CancelFunc, n *simnet.Net, tp *tap.Tap, lg *tap.Logger, sp tq.SecretProvider, opts ...tq.Option) *Srv {
 	s := &Srv{Net: n, L: n.Listen(), Tap: tp, Log: lg, cancel: cancel, Ctx: ctx, done: make(chan error, 1)}
 	s.Server = tq.NewServer(lg, sp, opts...)
 	go func() {
